@@ -351,8 +351,7 @@ def gen_repeated_ce(rng, spec, valid=True):
             cands.append(("g", v, v["array"], [v["name"]]))
             cands.append(("gm", v, v["array"], [v["name"], v["array"]["name"]]))
             # the whole grid with a hyperslab, then one of its members again (it is already there)
-            cands.append(("gw", v, v["array"], [v["name"]]))
-            cands.append(("gw", v, v["array"], [v["name"]]))
+            cands += [("gw", v, v["array"], [v["name"]])] * (4 if len(v["array"]["shape"]) > 1 else 1)
         elif v["k"] == "st":
             cands += [("m", v, m, [v["name"], m["name"]]) for m in v["members"] if m["k"] != "st" and m["shape"]]
     if not cands:
@@ -373,7 +372,11 @@ def gen_repeated_ce(rng, spec, valid=True):
         hs.append(nxt if i == more - 1 else unit_strides(nxt))
     if kind == "gw":
         hs = hs[:1]
-        member = rng.choice([v["array"]] + v["maps"])["name"]
+        if rng.random() < 0.5:
+            # the last element of every axis: where a map paired with another axis' index shows
+            hs = [tuple(slice(n - 1, n, 1) if n else slice(0, 1, 1) for n in shape)]
+        # (naming the LAST map again never mattered: prefer the array and the maps before it)
+        member = rng.choice(([v["array"]] + v["maps"][:-1]) * 3 + v["maps"][-1:])["name"]
         q = "%s%s,%s.%s" % (v["name"], hs_text(hs[0]), v["name"], member)
         if rng.random() < 0.3:
             q += ",%s.%s" % (v["name"], rng.choice([v["array"]] + v["maps"])["name"])
